@@ -400,6 +400,14 @@ def oracle_blw(args, out):
     if b['width'] == 'auto' and b['maxw'] == INF and b['minw'] == 0:
         if ml + mr + pb + w != cb[0] and w > 0:
             return f'block_level_width: width auto -> {w}; {ml}+{mr}+{pb}+{w} != {cb[0]}'
+    if b['width'] != 'auto' and b['ml'] != 'auto' and b['mr'] != 'auto' and len(got) >= 7:
+        # over-constrained (CSS 2.1 10.3.3): in rtl the left margin is the one that gives way, i.e. the box is
+        # moved by the space its USED width leaves, once; in ltr (and for a column box) it stays
+        moved = cb[1] is True and b['col'] is not True
+        want = b['px'] + (cb[0] - pb - w - b['mr'] - b['ml'] if moved else 0)
+        if got[6] != want:
+            return (f'block_level_width: over-constrained {"rtl" if cb[1] else "ltr"} box, width {b["width"]} -> {w} '
+                    f'(min {b["minw"]}, max {b["maxw"]}) in {cb[0]}: position_x {b["px"]} -> {got[6]}, expected {want}')
     return None
 
 
@@ -962,6 +970,80 @@ def oracle_embed(args, out):
     return None
 
 
+def oracle_imgres(args, out):
+    """css-images-3 §6.1: `image-resolution: <resolution>`; a <resolution> that is not positive is invalid
+    (css-values: resolutions are positive), as is anything that is not a dimension with a resolution unit."""
+    value, factor, exact = args
+    if out.startswith('err'):
+        return f'the image-resolution validator raised {out[4:]}'
+    want_valid = factor is not None and value > 0
+    if (out != 'ok invalid') != want_valid:
+        return (f'image-resolution: a value of {value} ({"a resolution unit" if factor is not None else "no resolution unit"}) '
+                f'was {"accepted" if out != "ok invalid" else "rejected"}')
+    if want_valid and exact and numbers(out)[0] != value * factor:
+        return f'image-resolution {value} x {factor} computed as {out[3:]}'
+    return None
+
+
+def oracle_imgids(args, out):
+    """Each distinct image is embedded once: two uses share one image id (one XObject name, one set of cache
+    slots) exactly when they show the same source under the same image-orientation and the same output options."""
+    keys = [tuple(k) for k in args[0]]
+    if out.startswith('err'):
+        return f'loading the images raised {out[4:]}'
+    items = sx.loads_line(out)
+    got = [int(v) for v in items[1]]
+    want = [keys.index(k) for k in keys]
+    for index, (g, w) in enumerate(zip(got, want)):
+        if g != w:
+            if g < index and keys[g] != keys[index]:
+                return (f'uses #{g} and #{index} get the same image id (one XObject, one cache slot) although they differ: '
+                        f'(source, orientation, optimize, jpeg_quality, dpi) = {tuple(map(str, keys[g]))} vs '
+                        f'{tuple(map(str, keys[index]))}')
+            return f'uses #{w} and #{index} are the same image but get different ids: it is embedded twice'
+    return None
+
+
+def oracle_canvasbg(args, out):
+    """CSS 2.1 14.2 / css-backgrounds-3 2.11: the canvas background is the background of the root element, or of
+    <body> when the root <html> has none; its *computed values* are the propagated element's — image-resolution
+    included, which fixes the intrinsic size of a raster background.  Judged: which element is chosen, and the
+    tile size / position when no axis is `round` (positioning area: the page box, `background-origin`)."""
+    page_g, bleeds, pstyle, root_g, rstyle, is_html, body = args
+    if out.startswith('err'):
+        return None
+
+    def has(style):
+        return style[3] is not True and (style[2] is True or style[0] is not None)
+    chosen, style = 'none', None
+    if has(rstyle):
+        chosen, style = 'root', rstyle
+    elif is_html and body is not None and has(body[1]):
+        chosen, style = 'body', body[1]
+    toks = out.split()
+    if toks[1] != chosen:
+        return f'canvas background taken from {toks[1]}, expected {chosen}'
+    if style is None or style[0] is None or style[3] is True:
+        return None
+    image, res, colored, hidden, size, clip, rx, ry, origin, position, fixed = style
+    pw, ph = image
+    if not (pos(res) and pos(pw) and pos(ph)):
+        return None
+    intr = (pw / res, ph / res, pw / ph)
+    want = ref_layer(page_g, 'plain', page_g, intr, size, 'border-box', rx, ry, origin, position, False)
+    if want is None or want[0] in ('none', 'empty') or fixed:
+        return None
+    nums = [v for v in numbers(out) if isinstance(v, Fraction)]
+    if len(nums) != 12:
+        return f'canvas background of {chosen}: the image layer is missing ({out})'
+    if tuple(nums[4:6]) != tuple(want[1]):
+        return (f'canvas background propagated from {chosen} (image {pw}x{ph}px at image-resolution {res}dppx, '
+                f'background-size {size}): tile {nums[4]}x{nums[5]}, expected {want[1][0]}x{want[1][1]}')
+    if tuple(nums[6:8]) != tuple(want[2]):
+        return f'canvas background propagated from {chosen}: tile at {nums[6]},{nums[7]}, expected {want[2][0]},{want[2][1]}'
+    return None
+
+
 def oracle_pngdata(args, out):
     """PNG specification 5.3 / 10.1 on the bytes of the file: after the 8-byte signature, chunks of
     length(4) type(4) data(length) crc(4); the image data is the concatenation of the IDAT contents.  Judged
@@ -1087,7 +1169,7 @@ ORACLES = {
     'drawrep': oracle_drawrep, 'rdraw': oracle_rdraw, 'docimg': oracle_docimg, 'docsvg': oracle_docsvg,
     'svgintr': oracle_svgintr, 'embed': oracle_embed, 'svgratio': oracle_svgratio, 'svgroot': oracle_svgroot,
     'svgratioc': oracle_svgratioc, 'svgattr': oracle_svgattr, 'pngdata': oracle_pngdata,
-    'svgimagee': oracle_svgimagee,
+    'svgimagee': oracle_svgimagee, 'imgres': oracle_imgres, 'imgids': oracle_imgids, 'canvasbg': oracle_canvasbg,
     'svgimage': oracle_svgimage, 'orient': oracle_orient, 'orientangle': oracle_orientangle,
     'prefwidth': oracle_prefwidth,
 }
